@@ -70,6 +70,7 @@ def units(ctx):
         yield ("deep", k)
     for i in range(len(small)):
         yield ("self", i)
+    yield ("chsig", 0)
 
 
 def gen_cases(unit, ctx):
@@ -96,6 +97,19 @@ def _gen_cases(unit, ctx):
                 if ph:
                     yield {"members": [{"notes": [list(x) for x in ns], "events": [], "dur": None},
                                        {"notes": [list(x) for x in ph], "events": [], "dur": None}]}
+        return
+    if unit[0] == "chsig":
+        # signature events on different channels: A on one channel, B on another in between, A again on the first
+        p, (c0, c1) = ctx["p"], ctx["ch"]
+        for (ca, cb) in ((c0, c1), (c1, c0), (c0, c0)):
+            for note in ([], [[2, 4, p, ca, 64]]):
+                a1 = [["ts", 0, 4, 4, ca], ["ks", 0, "C", ca]]
+                b_ = [["ts", 4, 3, 4, cb], ["ks", 4, "G", cb]]
+                a2 = [["ts", 8, 4, 4, ca], ["ks", 8, "C", ca]]
+                yield {"members": [{"notes": note, "events": a1 + a2, "dur": None}, {"notes": [], "events": b_, "dur": 12}]}
+                yield {"members": [{"notes": note, "events": a1, "dur": None}, {"notes": [], "events": b_, "dur": None},
+                                   {"notes": [], "events": a2, "dur": 12}]}
+                yield {"members": [{"notes": note, "events": a1 + b_ + a2, "dur": 12}]}
         return
     if unit[0] == "self":
         # families in which one sequence OBJECT occurs twice: the receiver among its own operands, a member listed twice,
@@ -193,7 +207,7 @@ def model(mems):
             by.setdefault((c, p), []).append((o, o + l))
             dur = max(dur, o + l)
         for e in m["events"]:
-            sig.append(tuple(e))
+            sig.append(tuple(e[:4]) if e[0] == "ts" else tuple(e[:3]))       # an event may name its channel as a last field
             dur = max(dur, e[1])
         if m["dur"]:
             dur = max(dur, m["dur"])
